@@ -47,6 +47,8 @@ func lblFunc(c *Ctx, name string) *ssa.Function {
 	return nil
 }
 
+var c19Rule = "C19-K1"
+
 func c19ToBytes(c *Ctx) {
 	r, sx := c.R, c.Sx()
 	var f *ssa.Function
@@ -56,7 +58,7 @@ func c19ToBytes(c *Ctx) {
 		}
 	}
 	if f == nil {
-		r.Undecided("C19-K1", "Labels.ToBytes", "-", "not found")
+		r.Undecided(c19Rule, "Labels.ToBytes", "-", "not found")
 		return
 	}
 	key := func(s string) string { return "rfc1035label.Labels.ToBytes: " + s }
@@ -75,13 +77,13 @@ func c19ToBytes(c *Ctx) {
 		}
 	})
 	if parse == nil || sameCall == nil {
-		r.Violation("C19-K1", key("original is re-parsed and compared"), c.P.pos(f.Pos()), fmt.Sprintf("labelsFromBytes call: %v, same call: %v — the decision to re-emit the original no longer depends on comparing its names with the current ones", parse != nil, sameCall != nil))
+		r.Violation(c19Rule, key("original is re-parsed and compared"), c.P.pos(f.Pos()), fmt.Sprintf("labelsFromBytes call: %v, same call: %v — the decision to re-emit the original no longer depends on comparing its names with the current ones", parse != nil, sameCall != nil))
 		return
 	}
-	r.Check(sx.Of(parse.Call.Args[0]).String() == orig, "C19-K1", key("the bytes re-parsed are the stored original"), c.P.ipos(parse), "symx", "re-parses "+sx.Of(parse.Call.Args[0]).String())
+	r.Check(sx.Of(parse.Call.Args[0]).String() == orig, c19Rule, key("the bytes re-parsed are the stored original"), c.P.ipos(parse), "symx", "re-parses "+sx.Of(parse.Call.Args[0]).String())
 	a0, a1 := sx.Of(sameCall.Call.Args[0]).String(), sx.Of(sameCall.Call.Args[1]).String()
 	parsed := sx.Of(extractOf(parse, 0)).String()
-	r.Check((a0 == parsed && a1 == cur) || (a1 == parsed && a0 == cur), "C19-K1", key("compares the names parsed from the original with the current names"), c.P.ipos(sameCall), "symx", "same("+a0+", "+a1+")")
+	r.Check((a0 == parsed && a1 == cur) || (a1 == parsed && a0 == cur), c19Rule, key("compares the names parsed from the original with the current names"), c.P.ipos(sameCall), "symx", "same("+a0+", "+a1+")")
 	perr := extractOf(parse, 1)
 	var origRet, freshRet *ssa.Return
 	for _, ret := range returnsOf(f) {
@@ -92,10 +94,10 @@ func c19ToBytes(c *Ctx) {
 		case strings.HasPrefix(s, "call[rfc1035label.labelsToBytes]("+cur):
 			freshRet = ret
 		default:
-			r.Violation("C19-K1", key("returns the original or a fresh encoding"), c.P.ipos(ret), "returns "+s)
+			r.Violation(c19Rule, key("returns the original or a fresh encoding"), c.P.ipos(ret), "returns "+s)
 		}
 	}
-	r.Check(origRet != nil && freshRet != nil, "C19-K1", key("both re-emission paths exist"), c.P.pos(f.Pos()), "two returns", fmt.Sprintf("original path: %v, fresh path: %v", origRet != nil, freshRet != nil))
+	r.Check(origRet != nil && freshRet != nil, c19Rule, key("both re-emission paths exist"), c.P.pos(f.Pos()), "two returns", fmt.Sprintf("original path: %v, fresh path: %v", origRet != nil, freshRet != nil))
 	if origRet == nil || perr == nil {
 		return
 	}
@@ -113,7 +115,7 @@ func c19ToBytes(c *Ctx) {
 			edges = append(edges, tE)
 		}
 	}
-	r.Check(len(edges) == 2 && mustPassEdges(f, origRet.Block(), edges...), "C19-K1", key("original re-emitted only if it does not parse or its names equal the current names"), c.P.ipos(origRet), "must-pass {parse error, same == true}",
+	r.Check(len(edges) == 2 && mustPassEdges(f, origRet.Block(), edges...), c19Rule, key("original re-emitted only if it does not parse or its names equal the current names"), c.P.ipos(origRet), "must-pass {parse error, same == true}",
 		"the stored original can be returned although the names were changed (a modified label set re-encodes to its old bytes)")
 	// fresh path requires same == false (or original nil)
 	if freshRet != nil {
@@ -128,7 +130,7 @@ func c19ToBytes(c *Ctx) {
 				}
 			}
 		}
-		r.Check(ok, "C19-K1", key("changed names are re-encoded"), c.P.ipos(freshRet), "fresh encoding reachable from same == false", "")
+		r.Check(ok, c19Rule, key("changed names are re-encoded"), c.P.ipos(freshRet), "fresh encoding reachable from same == false", "")
 	}
 }
 
@@ -137,7 +139,7 @@ func c19Same(c *Ctx) {
 	r, sx := c.R, c.Sx()
 	f := lblFunc(c, "same")
 	if f == nil {
-		r.Undecided("C19-K1", "rfc1035label.same", "-", "not found")
+		r.Undecided(c19Rule, "rfc1035label.same", "-", "not found")
 		return
 	}
 	key := func(s string) string { return "rfc1035label.same: " + s }
@@ -148,7 +150,7 @@ func c19Same(c *Ctx) {
 	allInstrs(f, func(in ssa.Instruction) {
 		if cl, ok := in.(*ssa.Call); ok && !isBuiltinCall(cl.Common(), "len") {
 			clean = false
-			r.Violation("C19-K1", key("exact comparison (no helper calls)"), c.P.ipos(cl), "calls "+calleeName(cl.Common())+": names are compared through a transformation (case folding, joining …), so some edits of the name list are not seen and the stale original is re-emitted")
+			r.Violation(c19Rule, key("exact comparison (no helper calls)"), c.P.ipos(cl), "calls "+calleeName(cl.Common())+": names are compared through a transformation (case folding, joining …), so some edits of the name list are not seen and the stale original is re-emitted")
 		}
 	})
 	// length guard
@@ -180,14 +182,14 @@ func c19Same(c *Ctx) {
 			}
 		}
 	}
-	r.Check(lenGuard, "C19-K1", key("different lengths are unequal"), c.P.pos(f.Pos()), "len(a) != len(b) ⇒ false", "no length comparison returning false")
-	r.Check(elemCmp && clean, "C19-K1", key("a[i] != b[i] at the same index ⇒ false"), c.P.pos(f.Pos()), "string inequality of same-index elements returns false", "no exact element-wise comparison")
+	r.Check(lenGuard, c19Rule, key("different lengths are unequal"), c.P.pos(f.Pos()), "len(a) != len(b) ⇒ false", "no length comparison returning false")
+	r.Check(elemCmp && clean, c19Rule, key("a[i] != b[i] at the same index ⇒ false"), c.P.pos(f.Pos()), "string inequality of same-index elements returns false", "no exact element-wise comparison")
 	if elemIf != nil {
-		r.Check(inCycle(elemIf.Block()), "C19-K1", key("every index is compared"), c.P.ipos(elemIf), "comparison inside the index loop", "the element comparison is not in a loop")
+		r.Check(inCycle(elemIf.Block()), c19Rule, key("every index is compared"), c.P.ipos(elemIf), "comparison inside the index loop", "the element comparison is not in a loop")
 	}
 	for _, ret := range returnsOf(f) {
 		if sx.Of(ret.Results[0]).String() == "const(true)" {
-			r.Check(!inCycle(ret.Block()), "C19-K1", key("true only after the loop"), c.P.ipos(ret), "return true outside the loop", "returns true inside the loop")
+			r.Check(!inCycle(ret.Block()), c19Rule, key("true only after the loop"), c.P.ipos(ret), "return true outside the loop", "returns true inside the loop")
 		}
 	}
 }
